@@ -16,7 +16,7 @@ NOT_YET = {}
 
 PROPS = {
     "C02": {
-        "suites": [{"name": "mixer", "quick": 2500, "thorough": 100000}],
+        "suites": [{"name": "mixer", "quick": 10000, "thorough": 300000}],
         "level_text": "Lean theorems about the imperative model of Renderer/Mixer/Track/SendTrack/MainTrack::process (shared temp "
                       "buffers, in-place accumulation, early return of paused tracks, send inputs), for ALL track trees, effect chains, "
                       "route tables, parameter states, buffer and callback sizes, with sounds/effects as arbitrary state-passing components: "
@@ -56,7 +56,7 @@ PROPS = {
         ],
     },
     "C11": {
-        "suites": [{"name": "mixpart", "quick": 1500, "thorough": 60000}],
+        "suites": [{"name": "mixpart", "quick": 5000, "thorough": 150000}],
         "level_text": "Lean theorems over the reals about the imperative model of Renderer/Mixer/Track/SendTrack/MainTrack::process, "
                       "for ALL track trees, route tables and chunk-homomorphic abstract sounds/effects with settled parameters and a static "
                       "environment: a chunk of a+b frames renders exactly the frames of a chunk of a then a chunk of b and reaches the same "
@@ -77,7 +77,7 @@ PROPS = {
         ],
     },
     "C12": {
-        "suites": [{"name": "mixtrk", "quick": 2500, "thorough": 100000}],
+        "suites": [{"name": "mixtrk", "quick": 10000, "thorough": 300000}],
         "level_text": "Lean theorems about the model of Track::{process, on_start_processing, should_be_removed, read_commands}, "
                       "TrackShared and TrackHandle for ALL trees, histories and abstract sounds/effects: a non-advancing track returns "
                       "exact silence, feeds no send and leaves every sound, effect, sub-track and pending resource below it unchanged, for any "
